@@ -1,12 +1,12 @@
---------------------------- MODULE SemObsTrace ---------------------------
+--------------------------- MODULE EventObsTrace ---------------------------
 (***************************************************************************)
-(* Observer-mode trace validation for the semaphore: replays an execution      *)
+(* Observer-mode trace validation for the manual-reset event: replays an execution      *)
 (* recorded from the real code (NDJSON, one event per line, runs separated *)
-(* by "run_start" events) through the client-level observer SemObs and       *)
+(* by "run_start" events) through the client-level observer EventObs and       *)
 (* evaluates every property in every state of the trace.  Nothing about    *)
 (* the implementation is assumed: only the events the code produced.       *)
 (***************************************************************************)
-EXTENDS SemObs, Json, IOUtils, TLCExt
+EXTENDS EventObs, Json, IOUtils, TLCExt
 
 VARIABLES l      \* position in the recorded trace
 
@@ -14,9 +14,7 @@ Rec == ndJsonDeserialize(IOEnv.TRACE)
 
 \* constants come from the header line of the trace (cfg: K <- TraceK, ...)
 TraceK == Rec[1].consts.K
-TraceFair == Rec[1].consts.Fair
-TraceInit0 == Rec[1].consts.Init0
-TraceMaxReq == Rec[1].consts.MaxReq
+TraceInitSet == Rec[1].consts.InitSet
 
 tvars == <<obsVars, l>>
 
@@ -27,13 +25,10 @@ TraceNext ==
   /\ l' = l + 1
   /\ IF Rec[l].op = "run_start"
      THEN /\ oA' = [f \in Slots |-> "none"]
-          /\ oReq' = [f \in Slots |-> 0]
           /\ oLastW' = [f \in Slots |-> "-"]
           /\ oWoken' = [f \in Slots |-> FALSE]
-          /\ oOrd' = <<>>
-          /\ oRels' = [a \in Amts |-> 0]
-          /\ oLedger' = Init0
-          /\ bad' = {}
+          /\ oLatched' = [f \in Slots |-> FALSE]
+          /\ oSet' = InitSet /\ bad' = {}
      ELSE ObsStep(Rec[l])
 
 TraceSpec == TraceInit /\ [][TraceNext]_tvars
